@@ -37,6 +37,7 @@ func checkC20(p *Prog, r *Report) {
 		sort.Strings(others)
 		r.Ob("series:writers", "-", len(others) == 0, fmt.Sprintf("writers of the series besides its reader: %v", others))
 	}
+	c20RecordFiling(p, r)
 }
 
 func c20Lookup(p *Prog, r *Report) {
